@@ -224,12 +224,15 @@ def run(tier: str, rng: random.Random, proof_ok: bool) -> dict:
                 pass
         # (b) tagging callback: applied to every direct child, in order, to nothing else
         kids = children(inv.err_type)
-        tags = {id(k): i for i, k in enumerate(kids)}
         called: List[int] = []
 
-        def nl(child, tags=tags, called=called):
-            called.append(tags.get(id(child), -1))
-            return {"__tag__": tags.get(id(child), -1)}
+        def nl(child, kids=kids, called=called):
+            # the k-th call must receive the k-th direct child (a cache may hand out one Invalid object twice,
+            # so children are told apart by position, not by identity)
+            k = len(called)
+            ok = k < len(kids) and kids[k] is child
+            called.append(k if ok else -1)
+            return {"__tag__": k if ok else -1}
         try:
             out2 = to_serializable_errs(inv, nl)
             if called != list(range(len(kids))):
